@@ -393,6 +393,10 @@ def arg_decode(text, typ):
     return int(text)
 
 
+class _Str(str):
+    """an equal but never identical text value: identity tests (`is`) on strings only work by accident of interning"""
+
+
 def call_result(cases, check_impl=None, nontrivial=None, rule="", model_args=None, extra_samples=3):
     """cases: list of (fn, args), executed on the implementation IN ORDER, repeats included (so that state
     left behind by an earlier call - a cache, a buffered cipher context - shows up); the model, being a pure
@@ -459,10 +463,10 @@ def call_result(cases, check_impl=None, nontrivial=None, rule="", model_args=Non
     import threading as _threading
     pick = _random.Random(len(cases))
     uniq = list(dict.fromkeys(zip([c[0] for c in cases], [c[1] for c in cases], all_lines)))
-    with_bytes = [u for u in uniq if any(isinstance(a, bytes) for a in u[1])]
+    with_bytes = [u for u in uniq if any(isinstance(a, (bytes, str)) for a in u[1])]
     carrier = 0
     for fn, args, line in (with_bytes if len(with_bytes) <= 1500 else pick.sample(with_bytes, 1500)):
-        a2 = tuple(bytearray(a) if isinstance(a, bytes) else a for a in args)
+        a2 = tuple(bytearray(a) if isinstance(a, bytes) else (_Str(a) if type(a) is str else a) for a in args)
         try:
             raw = (core.FUNCS[fn] if isinstance(fn, str) else fn)(*a2)
             i = ("OK", core.show(raw))
@@ -583,6 +587,32 @@ def call_result(cases, check_impl=None, nontrivial=None, rule="", model_args=Non
                             v["note"] = "only on a big-endian host (sys.byteorder == 'big'): python harness/bigendian.py"
                             viol.append(v)
         dist["pass:big_endian_host"] = len(be)
+    # sixth pass: the same calls under `python -OO` (asserts and `if __debug__:` blocks compiled out, docstrings dropped)
+    op = uniq if len(uniq) <= 1200 else pick.sample(uniq, 1200)
+    try:
+        with _tempfile.TemporaryDirectory() as td:
+            _pickle.dump([(fn, args) for fn, args, _ in op], open(os.path.join(td, "in"), "wb"))
+            _subprocess.run([_sys.executable, "-OO", "-W", "ignore", os.path.join(VERIF, "harness", "bigendian.py"), os.path.join(td, "in"),
+                             os.path.join(td, "out"), "native"], check=True, capture_output=True, timeout=600)
+            op_out = _pickle.load(open(os.path.join(td, "out"), "rb"))
+    except Exception as e:  # noqa: BLE001
+        op_out = None
+        diffs.append({"pass": "python -OO", "error": repr(e)[:300]})
+    if op_out is not None:
+        nop = 0
+        for (fn, args, line), i in zip(op, op_out):
+            if i != mres[line]:
+                nop += 1
+                if nop <= 10:
+                    diffs.append({"fn": fn, "args": [core.show(a) for a in args], "impl": list(i), "model": list(mres[line]), "pass": "python -OO"})
+                    if check_impl:
+                        v = check_impl(fn, args, i)
+                        if v:
+                            v = dict(v)
+                            v["input"] = {"fn": fn, "args": [core.show(a) for a in args]}
+                            v["note"] = "only when the interpreter runs with -O / -OO (assert and __debug__ blocks removed)"
+                            viol.append(v)
+        dist["pass:python_OO"] = len(op)
     dist["pass:bytearray_carrier"] = carrier
     dist["pass:threads8"] = len(work)
     return {"evaluations": len(cases) + redo + carrier + len(work), "distinct_nontrivial": nontriv, "rule": rule, "samples": samples,
